@@ -313,7 +313,7 @@ func hyR3StateUses(g *hyGen, p *packages.Package) string {
 func hyR3ProviderFlow(g *hyGen) string {
 	var rows []string
 	for _, pv := range []struct{ tag, path string }{{"http", hyHTTPPkg}, {"grpc", hyGRPCPkg}} {
-		pp := load(pv.path)
+		pp := hclyamlLoad(pv.path)
 		fd := findFunc(pp, "NewProvider")
 		if fd == nil {
 			g.fail("%s.NewProvider not found", pv.path)
